@@ -93,7 +93,8 @@ def run(ctx):
         for layout in (0, 1, 2):
             toks = [names[m] for m in adv]
             if layout == 0:
-                lines = [b"AUTH " + b" ".join(toks + [b"CRAM-MD5"])] if toks else [b"AUTH CRAM-MD5"]
+                other = rng.choice([b"CRAM-MD5", b"PLAIN-CLIENTTOKEN", b"MSLOGIN", b"X-LOGIN-TOKEN", b"XOAUTH2-BETA", b"XOAUTH", b"LOGINX", b"APLAIN"])   # names that contain a known name are other names
+                lines = [b"AUTH " + b" ".join(toks + [other])] if toks else [b"AUTH " + other]
             elif layout == 1:
                 lines = [b"AUTH " + t for t in toks]
             else:
@@ -226,7 +227,11 @@ def run(ctx):
     # the preference list of the transport builder is the list that is used - the empty one included: with none of its mechanisms on offer
     # the send fails before any credential (or MAIL) is on the wire
     pref_scs, pref_meta = [], []
-    for mechs, adv, want in (([], b"AUTH PLAIN LOGIN XOAUTH2", None), (["XOAUTH2"], b"AUTH PLAIN LOGIN", None), (["LOGIN"], b"AUTH PLAIN", None), (["LOGIN", "PLAIN"], b"AUTH PLAIN LOGIN", "LOGIN"), (["XOAUTH2", "PLAIN"], b"AUTH PLAIN LOGIN", "PLAIN"), (["PLAIN"], b"SIZE 1", None)):
+    for mechs, adv, want in (([], b"AUTH PLAIN LOGIN XOAUTH2", None), (["XOAUTH2"], b"AUTH PLAIN LOGIN", None), (["LOGIN"], b"AUTH PLAIN", None), (["LOGIN", "PLAIN"], b"AUTH PLAIN LOGIN", "LOGIN"), (["XOAUTH2", "PLAIN"], b"AUTH PLAIN LOGIN", "PLAIN"), (["PLAIN"], b"SIZE 1", None),
+                             # mechanisms whose names contain a known name are not that mechanism; "AUTH=..." is another keyword
+                             (["PLAIN", "LOGIN", "XOAUTH2"], b"AUTH PLAIN-CLIENTTOKEN MSLOGIN X-LOGIN-TOKEN XOAUTH2-BETA XOAUTH OAUTHBEARER", None),
+                             (["PLAIN", "LOGIN"], b"AUTH PLAIN-CLIENTTOKEN LOGIN", "LOGIN"), (["LOGIN", "PLAIN"], b"AUTH LOGINX APLAIN PLAIN", "PLAIN"),
+                             (["XOAUTH2", "PLAIN"], b"AUTH XOAUTH2-BETA PLAIN", "PLAIN"), (["PLAIN"], b"AUTH=PLAIN", None)):
         for fl in ("sync", "tokio"):
             script = [step("none", b"220 hi\r\n"), step("line", b"250-srv\r\n250 " + adv + b"\r\n")]
             if want == "LOGIN":
@@ -252,6 +257,35 @@ def run(ctx):
     ctx.cov["oracle"]["builder_preference_list_on_impl_wire"] = {"cases": len(pref_scs), "failures": len(pbad)}
     if pbad:
         ctx.violation({"kind": "oracle", "entry": "SmtpTransportBuilder::authentication", "what": pbad[0][1], "scenario": pbad[0][0], "failures": len(pbad)})
+    # credentials never appear in error text: LOGIN refused after the user-name answer or after the password answer (whose lines have no
+    # verb - they ARE the credentials); neither the raw nor the base64 form may be in what the error says
+    leak_scs = []
+    for at in (1, 2):
+        for code in (b"535", b"454", b"501", b"504"):
+            for fl in ("sync", "tokio"):
+                script = [step("none", b"220 hi\r\n"), step("line", b"250-srv\r\n250 AUTH LOGIN PLAIN\r\n"), step("line", b"334 VXNlcm5hbWU6\r\n")]
+                if at == 2:
+                    script.append(step("line", b"334 UGFzc3dvcmQ6\r\n"))
+                script += [step("line", code + b" 5.7.8 no\r\n"), step("line", b"221 bye\r\n"), step("line", b"221 bye\r\n")]
+                leak_scs.append({"id": 610000 + len(leak_scs), "flavor": fl, "timeout_ms": 3000, "servers": [script], "at": at, "code": code.decode(),
+                                 "ops": [{"op": "transport", "hello": hx(b"leak.test"), "user": hx(b"pref-user-4242"), "pass": hx(b"pref-secret-9731"), "mechs": ["LOGIN"]},
+                                         {"op": "tsend", "from": hx(b"a@x.org"), "to": [hx(b"b@y.org")], "msg": hx(b"x")}, {"op": "tdrop"}]})
+    lbad = []
+    import re as _re
+    for sc, r in zip(leak_scs, run_scenarios(leak_scs)):
+        ctx.count()
+        txt = str(r.get("results"))
+        dec = b" ".join(bytes.fromhex(h) for h in _re.findall(r"(?:[0-9a-f]{2}){4,}", txt))
+        res = str((r.get("results") or [None, None])[1])
+        if not res.startswith("err,%s,%s," % ("transient" if sc["code"][0] == "4" else "permanent", sc["code"])):
+            lbad.append((sc, "LOGIN refused with %s after answer %d (%s): the send returned %s" % (sc["code"], sc["at"], sc["flavor"], res[:100])))
+        for secret in (b"pref-user-4242", b"pref-secret-9731", b64(b"pref-user-4242"), b64(b"pref-secret-9731")):
+            if secret in dec or secret.decode() in txt:
+                lbad.append((sc, "LOGIN refused with %s after answer %d (%s): the error text holds %r" % (sc["code"], sc["at"], sc["flavor"], secret)))
+                break
+    ctx.cov["oracle"]["no_credentials_in_the_error_of_a_refused_login"] = {"cases": len(leak_scs), "failures": len(lbad)}
+    if lbad:
+        ctx.violation({"kind": "oracle", "entry": "error text of a refused LOGIN answer", "what": lbad[0][1], "scenario": lbad[0][0], "failures": len(lbad)})
     # pure: Mechanism::response and base64
     lines = []
     for user, pw in CREDS:
